@@ -101,6 +101,9 @@ type fnEnv struct {
 	params map[types.Object]bool
 	vars   map[types.Object]prov
 	set    map[types.Object]bool
+	// strict: no callee summaries except clone/make; a call to a function in `aliasing` passes its first argument through
+	strict   bool
+	aliasing map[string]bool
 }
 
 func (e *fnEnv) classify(x ast.Expr) prov {
@@ -146,6 +149,17 @@ func (e *fnEnv) classify(x ast.Expr) prov {
 		case *ast.Ident:
 			if isBuiltin(e.info, f, "append") && len(v.Args) > 0 {
 				return e.classify(v.Args[0])
+			}
+			if e.strict {
+				if f.Name == "clone" || f.Name == "make" || f.Name == "new" {
+					return pFresh
+				}
+				if known, ok := e.aliasing[f.Name]; ok {
+					if known && len(v.Args) > 0 {
+						return e.classify(v.Args[0])
+					}
+					return pFresh
+				}
 			}
 			if freshCallee(f.Name) {
 				return pFresh
@@ -200,6 +214,112 @@ func (e *fnEnv) assign(lhs ast.Expr, p prov) {
 		e.vars[obj] = p
 		e.set[obj] = true
 	}
+}
+
+// parserAliases computes, for the *ToProto functions of abi/abi.go, whether a field of the returned message can alias
+// the function's byte-slice parameter (i.e. is assigned from parameter-derived bytes that did not pass through clone).
+func parserAliases(pkgs []*packages.Package) (map[string]bool, []string) {
+	aliasing := map[string]bool{}
+	var order []string
+	var decls []*ast.FuncDecl
+	var info *types.Info
+	for _, p := range pkgs {
+		if shortPkg(p) != "abi" {
+			continue
+		}
+		info = p.TypesInfo
+		for _, f := range p.Syntax {
+			if filepath.Base(p.Fset.Position(f.Pos()).Filename) != "abi.go" {
+				continue
+			}
+			for _, d := range f.Decls {
+				if fd, ok := d.(*ast.FuncDecl); ok && fd.Body != nil && (strings.HasSuffix(fd.Name.Name, "ToProto") || strings.HasPrefix(fd.Name.Name, "quoteToProto")) {
+					decls = append(decls, fd)
+					aliasing[fd.Name.Name] = false
+					order = append(order, fd.Name.Name)
+				}
+			}
+		}
+	}
+	sort.Strings(order)
+	for changed := true; changed; {
+		changed = false
+		for _, fd := range decls {
+			env := &fnEnv{info: info, params: map[types.Object]bool{}, vars: map[types.Object]prov{}, set: map[types.Object]bool{}, strict: true, aliasing: aliasing}
+			for _, fl := range fd.Type.Params.List {
+				for _, n := range fl.Names {
+					env.params[info.Defs[n]] = true
+				}
+			}
+			for pass := 0; pass < 2; pass++ {
+				ast.Inspect(fd.Body, func(n ast.Node) bool {
+					switch s := n.(type) {
+					case *ast.AssignStmt:
+						if len(s.Lhs) == len(s.Rhs) {
+							for i := range s.Lhs {
+								env.assign(s.Lhs[i], env.classify(s.Rhs[i]))
+							}
+						} else if len(s.Rhs) == 1 {
+							pr := env.classify(s.Rhs[0])
+							for i := range s.Lhs {
+								if i == 0 {
+									env.assign(s.Lhs[i], pr)
+								} else {
+									env.assign(s.Lhs[i], pFresh)
+								}
+							}
+						}
+					}
+					return true
+				})
+			}
+			alias := false
+			ast.Inspect(fd.Body, func(n ast.Node) bool {
+				switch s := n.(type) {
+				case *ast.AssignStmt:
+					for i, l := range s.Lhs {
+						if _, ok := l.(*ast.SelectorExpr); ok && i < len(s.Rhs) {
+							// message.Field = expr : bytes (or a sub-message built by a callee)
+							if t, ok := info.Types[s.Rhs[i]]; ok {
+								switch t.Type.Underlying().(type) {
+								case *types.Slice, *types.Pointer:
+									if env.classify(s.Rhs[i]) == pInput {
+										alias = true
+									}
+								}
+							}
+						}
+					}
+				case *ast.ReturnStmt:
+					// return quoteToProtoV4(b): the result aliases whatever the callee's result aliases
+					if len(s.Results) == 1 {
+						if call, ok := s.Results[0].(*ast.CallExpr); ok {
+							if id, ok := call.Fun.(*ast.Ident); ok {
+								if _, known := aliasing[id.Name]; known && env.classify(call) == pInput {
+									alias = true
+								}
+							}
+						}
+					}
+				case *ast.CallExpr:
+					// report.Rtmrs = append(report.Rtmrs, arr)
+					if id, ok := s.Fun.(*ast.Ident); ok && isBuiltin(info, id, "append") {
+						for _, a := range s.Args[1:] {
+							if env.classify(a) == pInput {
+								alias = true
+							}
+						}
+					}
+				}
+				return true
+			})
+			if alias && !aliasing[fd.Name.Name] {
+				aliasing[fd.Name.Name] = true
+				changed = true
+			}
+		}
+	}
+	return aliasing, order
 }
 
 func extractSites(pkgs []*packages.Package) []byte {
@@ -379,6 +499,17 @@ func extractSites(pkgs []*packages.Package) []byte {
 			sep = ""
 		}
 		fmt.Fprintf(&b, "  (%s, %s, %s, .%s)%s\n", leanString(s.file), leanString(s.fn), leanString(s.op), s.dest, sep)
+	}
+	b.WriteString("]\n\n")
+	aliasing, order := parserAliases(pkgs)
+	b.WriteString("/-- for each parser function of abi/abi.go: can a field of its result alias its byte-slice parameter (no clone on the way)? -/\n")
+	b.WriteString("def parserAliasesParam : List (String × Bool) := [\n")
+	for i, n := range order {
+		sep := ","
+		if i == len(order)-1 {
+			sep = ""
+		}
+		fmt.Fprintf(&b, "  (%s, %v)%s\n", leanString(n), aliasing[n], sep)
 	}
 	b.WriteString("]\n\nend Tdx.Gen\n")
 	return b.Bytes()
